@@ -8,6 +8,8 @@
 //! same for many run indices and appends one JSON line per run to FILE.
 
 mod e1;
+mod e1conc;
+mod e1crash;
 mod driver;
 mod e2;
 mod handlers;
